@@ -5,6 +5,7 @@ package environment
 //verif:pkg core/environment
 //verif:hook core/the ConfSvc
 //verif:hook core/workflow/callable Call.Call
+//verif:hook core/workflow/callable Call.Start
 
 // Shared set-up for the harnesses that drive a real Environment (FSM table, callbacks, handleHooks,
 // TryTransition) with the outside world replaced: configuration service, integration calls.
@@ -135,6 +136,10 @@ func fenvNew(conf *fenvConf, rec *fenvRec, state string, hooks []fenvHook) *Envi
 		}
 		rec.add("call:" + c.GetName() + ":end")
 		return err
+	}
+	callable.VerifHook_Call_Start = func(c *callable.Call) {
+		rec.add("launch:" + c.GetName()) // the moment the state machine fires the hook (the call itself runs asynchronously)
+		c.VerifOrig_Call_Start()
 	}
 	envId, _ := uid.FromString("2oDvieFrVTi")
 	env, err := newEnvironment(map[string]string{}, envId)
